@@ -448,7 +448,7 @@ CONSTRUCTS = [
     ('selectAllCases', 2, lambda s: ('selectAllCases', [s[0], s[1]])),
     ('examine', 2, lambda s: ('examine', [s[0], s[1]])),
 ]
-CASE_VALUES = [0, 1, 2, -1]     # the receiver of switchCase is an integer
+CASE_VALUES = [0, 1, 2, 3, -1, -2, -3]     # the receiver of switchCase is an integer
 
 
 def leaf_values(cname, slot, alphabet):
